@@ -315,6 +315,18 @@ var c02Structural = []string{
 	"m := {a:1}\nprint m[\"a\"] (m == {a:1}) ({} == {}) ([] == []) ([[]] == [[]])\n",
 	"x:any\ny:any\nprint (x == y) (x != y)\nx = 1\ny = \"1\"\nprint (x == y)\n",
 	"t:[]{}[]any\nt = [{a:[1 \"x\" []]} {}]\nprint t (typeof t) (typeof t[0].a[2])\n",
+	// a name whose declaration failed is used afterwards: follow-on errors, never a crash
+	"on key k:strin\n    if k == \"q\"\n        print k[0] k+\"x\" -k !k k[1:]\n    end\nend\n",
+	"func f a:nu b:[]strin\n    print a+1 b[0] a<b (len b) b+b\n    a = b\n    b[0] = a\nend\nf 1 [2]\n",
+	"x:nu\ny := x + 1\nprint x[0] y x.k -x\nx = y\nfor e := range x\n    print e\nend\n",
+	"func g:nu\n    return 1\nend\nz := (g) + 1\nprint z (g)[0]\n",
+	"for i := range \n    print i+1 i[0]\nend\nfor j := range 1 2 3 4\n    print j+\"s\"\nend\n",
+	"a := [1 2\nprint a[0] a+a\nm := {k:\nprint m.k\n",
+	// equality between any values of the same kind but other element types
+	"x:any\ny:any\nx = [1 2]\ny = [\"1\" \"2\"]\nprint (x == y) (x != y)\nx = {k:1}\ny = {k:\"1\"}\nprint (x == y)\nx = [[1]]\ny = [[true]]\nprint (x == y)\n",
+	"xs:[]any\nxs = [[1 2] [\"1\" \"2\"] {k:1} {k:\"1\"} [] {}]\nfor a := range xs\n    for b := range xs\n        print (a == b)\n    end\nend\n",
+	// slice and index expressions whose own operands fail
+	"a := [1 2 3]\nprint a[1:a[7]]\n", "a := [1 2 3]\nprint a[a[7]:]\n", "s := \"abc\"\nprint s[0:(str2num s)+9]\n", "a := [1 2 3]\nprint a[a[0]:a[1]] a[a[2]]\n",
 }
 
 var digitsRe = regexp.MustCompile(`[0-9]+`)
